@@ -209,7 +209,7 @@ func execC20(body json.RawMessage) *kernel.Result {
 		return res
 	}
 	if sc.Budget == 0 {
-		sc.Budget = 2000000
+		sc.Budget = 500000
 	}
 	root := filepath.Dir(corpusDir())
 	verifos.Policy = readOnlyPolicy(root)
@@ -407,7 +407,7 @@ func genC20Corpus(r *kernel.RNG, tier string, i int) interface{} {
 		elig = []int{0}
 	}
 	j := elig[i%len(elig)]
-	sc := &c20Scenario{Name: names[j], Program: []string{cs[j]}, Demo: strings.Contains(cs[j], "snoopy") || strings.Contains(cs[j], "weather") || strings.Contains(cs[j], "hornet") || strings.Contains(cs[j], "hellcat") || strings.Contains(cs[j], "nestouter"), Budget: 2000000}
+	sc := &c20Scenario{Name: names[j], Program: []string{cs[j]}, Demo: strings.Contains(cs[j], "snoopy") || strings.Contains(cs[j], "weather") || strings.Contains(cs[j], "hornet") || strings.Contains(cs[j], "hellcat") || strings.Contains(cs[j], "nestouter"), Budget: 500000}
 	n := 4
 	if tier == "thorough" {
 		n = 8
